@@ -189,7 +189,7 @@ def run(tier):
     for i, c in enumerate([dict(nf=2, mb=1, ids=["a", "b", "z"], backlogs=(3,), flagsets=ALLFLAGS, tails=(1, 3)),
                            dict(nf=3, mb=1, ids=["a", "z"], backlogs=(3, 4), flagsets=ALLFLAGS[:5], tails=(2,))][:1 if tier == "quick" else 2]):
         cfgb = work + "/bp%d.cfg" % i
-        bpbind.cfg_for(cfgb, invariants=("NoError", "FlagsHonoured", "FlagDontCompressFragOwn", "DataIntegrity"), **c)
+        bpbind.cfg_for(cfgb, invariants=("NoError", "FlagsHonoured", "FlagDontCompressFrag", "DataIntegrity"), **c)
         r = run_tlc("BlockProc", cfgb, workers=16, timeout=3000, heap="20g")
         ev.tlc(r, "BlockProc flags %s" % json.dumps(c)[:80])
         if not r["ok"]:
@@ -197,28 +197,42 @@ def run(tier):
             print(r["out"][-1200:])
             ev.write()
             return 2
-    # dont_compress + tail deduplicated against an earlier (compressed) fragment: known finding, confirmed on the real code
+    # dont_compress + tail identical to an earlier file's tail: must not be deduplicated into that (compressed) fragment block
+    # (the pinned tree did: first recorded as a known finding, repaired later; the old behaviour is the deviation DontCompressTailDeduped)
     cfgb = work + "/bpknown.cfg"
     bpbind.cfg_for(cfgb, perfect=True, nf=2, mb=0, ids=["a", "b"], backlogs=(3,), flagsets=[[], ["DONT_COMPRESS"]], tails=(3,),
-                   invariants=("FlagDontCompressFrag",))
+                   invariants=("FlagDontCompressFrag",), emit=True)
     r = run_tlc("BlockProc", cfgb, workers=4, timeout=600, heap="8g")
-    ev.tlc(r, "BlockProc FlagDontCompressFrag (known finding probe)")
-    if r["violated"] == "FlagDontCompressFrag":
-        inp = r["trace"][0]["input"]
-        binp0 = bpbind.build_harness(work, "plain")
-        e = {"input": [{"flags": list(f["flags"]), "blocks": list(f["blocks"]), "tail": list(f["tail"])} for f in inp], "mb": 3}
-        p = work + "/known.txt"
+    ev.tlc(r, "BlockProc FlagDontCompressFrag")
+    if not r["ok"]:
+        print("MODEL-FAILURE: BlockProc violates %s" % r["violated"])
+        ev.write()
+        return 2
+    binp0 = bpbind.build_harness(work, "plain")
+    for e in bpbind.parse_emitted(r["out"]):
+        p = work + "/dc.txt"
         bpbind.input_file(p, e["input"], 3, 1)
         rc, o, err = sh([binp0, p], timeout=60)
-        real = json.loads(o.decode().strip().split("\n")[-1])
+        try:
+            real = json.loads(o.decode().strip().split("\n")[-1])
+        except Exception:
+            continue
         for fi, f in enumerate(e["input"]):
             if "DONT_COMPRESS" in f["flags"] and real["ino"][fi]["fidx"] >= 0 and real["ftbl"][real["ino"][fi]["fidx"]]["comp"]:
                 rep.violation("flags-dont_compress-tail-dedup", "dont_compress file whose tail duplicates an earlier file's tail is "
-                              "deduplicated into that (compressed) fragment block", artefact=p, data={"input": e["input"], "real": real})
+                              "deduplicated into that (compressed) fragment block: input %s" % json.dumps(e["input"]), artefact=p, data={"input": e["input"], "real": real})
+    bpbind.cfg_for(cfgb, dev="DontCompressTailDeduped", perfect=True, nf=2, mb=0, ids=["a", "b"], backlogs=(3,), flagsets=[[], ["DONT_COMPRESS"]], tails=(3,),
+                   invariants=("FlagDontCompressFrag",))
+    r = run_tlc("BlockProc", cfgb, workers=4, timeout=600, heap="8g")
+    ev.tlc(r, "dev DontCompressTailDeduped(pre-fix tree)")
+    if r["violated"] != "FlagDontCompressFrag":
+        print("SELF-CHECK-FAILED: DontCompressTailDeduped without counterexample")
+        ev.write()
+        return 2
     for dev in ["TailPackNever", "IgnoreDontCompress", "IgnoreDontFragment", "IgnoreNoSparse"]:
         cfgb = work + "/bpdev.cfg"
         bpbind.cfg_for(cfgb, dev=dev, nf=1, mb=1, ids=["a", "b", "z"], backlogs=(3,), flagsets=ALLFLAGS, tails=(1, 3),
-                       invariants=("NoError", "FlagsHonoured", "FlagDontCompressFragOwn", "DataIntegrity"))
+                       invariants=("NoError", "FlagsHonoured", "FlagDontCompressFrag", "DataIntegrity"))
         r = run_tlc("BlockProc", cfgb, workers=8, timeout=600, heap="8g")
         ev.tlc(r, "dev " + dev)
         devres[dev] = bool(r["violated"])
@@ -256,7 +270,7 @@ def run(tier):
     binp = bpbind.build_harness(work, "plain")
     cfgb = work + "/emit.cfg"
     bpbind.cfg_for(cfgb, emit=True, perfect=True, nf=2, mb=1, ids=["a", "b", "z"], backlogs=(3,), flagsets=ALLFLAGS, tails=(1, 3),
-                   invariants=("NoError", "FlagsHonoured", "FlagDontCompressFragOwn"))
+                   invariants=("NoError", "FlagsHonoured", "FlagDontCompressFrag"))
     r = run_tlc("BlockProc", cfgb, workers=16, timeout=3000, heap="20g")
     ev.tlc(r, "BlockProc emit (all flag sets)")
     em = bpbind.parse_emitted(r["out"])
